@@ -151,6 +151,14 @@ def programs(draw, feats=ALL_FEATS, min_nodes=2, max_nodes=8, clean=True, modes=
                 b.cands.update(cands)
                 b.consumed.update(cands)
             elif kind == 'rec':
+                # sometimes a second consumer of an existing recurrent destination (same start / max_iterations)
+                prior = [m for n_ in b.nodes for _, m in n_['params'] if m[0] == 'rec' and m[2] not in used
+                         and not any(pn in used for pn in S.rec_path_nodes(b.prog(), m[1], m[2]))]
+                if prior and draw(st.integers(0, 2)) == 0:
+                    m = draw(st.sampled_from(prior))
+                    node['params'].append([kw, ['rec', m[1], m[2], m[3]]])
+                    used.add(m[2])
+                    continue
                 r = _try_rec(draw, b, used, clean)
                 if r is None:
                     x = pick()
@@ -356,14 +364,44 @@ def variants(draw, program, feats=ALL_FEATS, x=None, p_fail=9):
             beh['value'] = draw(st.sampled_from(['none', 'zero', 'empty', 'false', 'list']))
         if beh:
             var['nodes'][nid] = beh
+    if 'fail' in feats and draw(st.integers(0, 3)) == 0:
+        focus_shared_failure(draw, program, var)
     return var
+
+
+def focus_shared_failure(draw, program, var):
+    """a node that belongs to several lazily built scopes (main pipeline / candidate / case sub-pipelines) fails
+    for good - the failure is met by whichever scope executes the node first"""
+    from verifkit import findings as F
+    sc = F.scopes(program)
+    inp = program['nodes'][0]['id']
+    lazy = [nodes for name, nodes in sc.items() if name != 'main']
+    shared = sorted(n for n in sc['main'] if n != inp and any(n in nodes for nodes in lazy))
+    if not shared:
+        shared = sorted(n for n in {x for nodes in lazy for x in nodes}
+                        if n != inp and sum(1 for nodes in lazy if n in nodes) >= 2)
+    if not shared:
+        return False
+    nid = draw(st.sampled_from(shared))
+    beh = var['nodes'].setdefault(nid, {})
+    beh['outcomes'] = []
+    beh['tail'] = 'ErrA'
+    node = S.node_index(program)[nid]
+    if draw(st.booleans()):
+        node['use_default'] = False
+        node['attempts'] = None
+    var['focus_fail'] = nid
+    return True
 
 
 @st.composite
 def schedules(draw, program=None, max_tape=48):
-    kind = _weighted(draw, [('index', 5), ('rank', 3), ('fifo', 1)])
+    kind = _weighted(draw, [('index', 5), ('rank', 3), ('delay', 3), ('fifo', 1)])
     if kind == 'fifo':
         return {'kind': 'index', 'tape': []}
+    if kind == 'delay':
+        ids_ = [n['id'] for n in program['nodes']] if program else [f'n{i}' for i in range(10)]
+        return {'kind': 'delay', 'node': draw(st.sampled_from(ids_)), 'after': draw(st.integers(1, 14))}
     if kind == 'index':
         n = draw(st.integers(0, max_tape))
         tape = draw(st.lists(st.sampled_from([0, 0, 0, 1, 1, 2, 3, 4]), min_size=n, max_size=n))
